@@ -11,6 +11,7 @@ import (
 var _ = vp.Reg("Listing", H_Listing)
 var _ = vp.Reg("SameVerdict", H_SameVerdict)
 var _ = vp.Reg("ArcListing", H_ArcListing)
+var _ = vp.Reg("Text", H_Text)
 
 // listing is what a recording printer saw.
 type listing struct {
@@ -166,4 +167,76 @@ func H_SameVerdict() {
 	_, err2 := decode.Disassemble(src)
 	vp.Reach("decoded")
 	vp.Assert(err == err2, "Disassemble fails with the same error as Decode, and succeeds exactly when it does")
+}
+
+// H_Text: the text Disassemble itself returns (its own hex column and line
+// structure, not a recording printer): on magic, no metadata, L arbitrary
+// instruction bytes, optionally after an earlier Disassemble call in the same
+// process (accepted or rejected; pooled or cached state would show here). The
+// text is a sequence of lines "14-column hex field, annotation, newline"; the
+// hex fields, concatenated, reproduce the input byte for byte, nothing else
+// is in them, and the lines whose annotation is not indented are the two
+// header lines plus one per delivered operation.
+func H_Text() {
+	L := vp.Param("L", 4)
+	tail := vp.Bytes("b", L)
+	vp.Assume(int(tail[0]>>4) == vp.Choice("op", 16))
+	src := append([]byte{0x89, 0x49, 0x56, 0x47, 0x00}, tail...)
+	vp.ReadOnly(src)
+	if vp.Choice("prior", 2) == 1 {
+		pb := vp.Bytes("p", vp.Param("P", 1))
+		prior := append([]byte{0x89, 0x49, 0x56, 0x47, 0x00}, pb...)
+		decode.Disassemble(prior)
+	}
+	text, err := decode.Disassemble(src)
+	var d rec.Dest
+	err0 := decode.Decode(&d, src)
+	vp.Reach("disassembled")
+	vp.Assert(err == err0, "Disassemble fails with the same error as Decode, and succeeds exactly when it does")
+	if err != nil {
+		vp.Assert(len(text) == 0, "no listing is returned with an error")
+		return
+	}
+	vp.Reach("listed")
+	const hex = "0123456789abcdef"
+	pos, j, heads := 0, 0, 0
+	wellFormed, same := true, true
+	for pos < len(text) {
+		if pos+14 > len(text) {
+			wellFormed = false
+			break
+		}
+		col := text[pos : pos+14]
+		k := 0
+		for k < 4 && col[3*k] != ' ' {
+			k++
+		}
+		if j+k > len(src) {
+			wellFormed = false
+			break
+		}
+		for i := 0; i < k; i++ {
+			same = vp.All(same, col[3*i] == hex[src[j]>>4], col[3*i+1] == hex[src[j]&15], col[3*i+2] == ' ')
+			j++
+		}
+		for i := 3 * k; i < 14; i++ {
+			same = vp.And(same, col[i] == ' ')
+		}
+		pos += 14
+		if pos < len(text) && text[pos] != ' ' {
+			heads++
+		}
+		for pos < len(text) && text[pos] != '\n' {
+			pos++
+		}
+		if pos >= len(text) {
+			wellFormed = false // last line not terminated
+			break
+		}
+		pos++
+	}
+	vp.Assert(wellFormed, "the listing is a sequence of lines: 14-column hex field, annotation, newline")
+	vp.Assert(j == len(src), "the hex fields together show as many bytes as the input has")
+	vp.Assert(same, "the hex fields, concatenated in line order, reproduce the input exactly")
+	vp.Assert(heads == 2+len(d.Log)-1, "two header lines and one instruction line per delivered operation")
 }
